@@ -21,7 +21,7 @@ import weakref
 from typing import Any, Dict, Iterable, List, Optional, Tuple
 
 from . import kernel as K
-from .core import Chooser, Digest, HarnessError, Outcome, Violation, classify_exception, draw_policy, jsonable
+from .core import Chooser, Digest, HarnessError, Outcome, Violation, classify_exception, draw_policy, jsonable, load_known_findings, match_known
 
 PROP = "C19"
 RULE = (
@@ -46,20 +46,32 @@ ASSUMPTIONS = [
 ]
 
 # 2463 and 20064 are one definition under two EPSG codes (pyproj: equal)
-CODES = [4326, 3857, 3577, 3035, 32633, 32601, 32660, 2193, 27700, 32755, 4283, 2463, 20064]
+# 7005 and 20137 share zone and ellipsoid and differ in datum: pyproj calls each equal to their common
+# ellipsoid-only PROJ string (PROJ4[7005]) and unequal to each other
+CODES = [4326, 3857, 3577, 3035, 32633, 32601, 32660, 2193, 27700, 32755, 4283, 2463, 20064, 7005, 20137]
 TRANSFORM_CODES = [4326, 3857, 3577, 3035, 32633, 32601, 32660, 2193, 32755, 4283]  # no datum-shift ambiguity
 CHURN_CODES = list(range(32602, 32660)) + list(range(32701, 32755))
 CUSTOM = {
     "laea": "+proj=laea +lat_0=10 +lon_0=20 +x_0=0 +y_0=0 +datum=WGS84 +units=m +no_defs +type=crs",
     "tmerc": "+proj=tmerc +lat_0=0 +lon_0=33 +k=0.9996 +x_0=500000 +y_0=0 +datum=WGS84 +units=m +no_defs +type=crs",
     "compound": "EPSG:4326+5773",  # horizontal + vertical, spelled with EPSG codes
+    # UTM 33N built from the conversion alone (base CRS axes in lon, lat order), as PROJJSON text: pyproj calls it equal to
+    # the PROJ string of 32633 and unequal to EPSG:32633.  Its WKT does not keep the base axis order, so only JSON routes are lossless
+    "utm33conv": open(os.path.join(os.path.dirname(os.path.abspath(__file__)), "data", "utm33conv.json"), encoding="utf8").read().strip(),
 }
+CUSTOM_ROUTES_FOR = {"utm33conv": ["json", "pyproj_json", "copy", "pickle", "user", "pyproj_user"]}
+# triples on which pyproj's own == is not transitive (checked at start-up, see parent_init); [code, route-or-None]
+CHAINS = [
+    [[7005, None], [7005, "proj4"], [20137, None]],
+    [[32633, None], [32633, "proj4"], ["utm33conv", None]],
+]
 PROJ4 = {  # lossy spellings: no equality with the EPSG-built CRS is expected, the laws still apply
     4326: "+proj=longlat +datum=WGS84 +no_defs",
     32633: "+proj=utm +zone=33 +datum=WGS84 +units=m +no_defs",
     32601: "+proj=utm +zone=1 +datum=WGS84 +units=m +no_defs",
     3857: "+proj=merc +a=6378137 +b=6378137 +lat_ts=0 +lon_0=0 +x_0=0 +y_0=0 +k=1 +units=m +nadgrids=@null +wktext +no_defs",
     4283: "+proj=longlat +ellps=GRS80 +no_defs",
+    7005: "+proj=utm +zone=37 +a=6378249.145 +rf=293.465 +units=m +no_defs +type=crs",
 }
 ROUTES = ["int", "EPSG", "epsg", "Epsg", "EPSG0", "wkt2019", "wkt2018", "json", "pyproj_epsg", "pyproj_wkt", "pyproj_json", "copy", "pickle"]
 CUSTOM_ROUTES = ["wkt2019", "wkt2018", "json", "pyproj_wkt", "pyproj_json", "copy", "pickle", "user", "pyproj_user"]
@@ -89,10 +101,29 @@ def parent_init(tier: str, opts: dict) -> None:
         p = pyproj.CRS.from_user_input(proj4)
         specs[name] = {"wkt2019": p.to_wkt(version=WktVersion.WKT2_2019), "wkt2018": p.to_wkt(version=WktVersion.WKT2_2018), "json": p.to_json_dict(), "pp": p}
     REF["specs"] = specs
-    cls: Dict[Any, Any] = {}
+    # ground truth for "same CRS": pyproj's own comparison of the reference definitions, pair by pair
+    # (not classes: pyproj's == is not transitive, see CHAINS)
+    # One reference object per (definition, material handed to pyproj): pyproj's answer can depend on
+    # the material (EPSG:32633 rebuilt from its own WKT equals 'utm33conv', built from the code it does not)
+    pps: Dict[Any, Any] = {}
     for a in CODES + list(CUSTOM):
-        cls[a] = next((b for b in cls if specs[a]["pp"] == specs[b]["pp"]), a)
-    REF["class"] = cls  # ground truth for "same CRS": pyproj's own comparison of the EPSG definitions
+        pps[(a, "epsg" if a in CODES else "user")] = specs[a]["pp"]
+        pps[(a, "wkt2019")] = pyproj.CRS.from_user_input(specs[a]["wkt2019"])
+        pps[(a, "wkt2018")] = pyproj.CRS.from_user_input(specs[a]["wkt2018"])
+        pps[(a, "json")] = pyproj.CRS.from_json_dict(copy.deepcopy(specs[a]["json"]))
+    for code, txt in PROJ4.items():
+        pps[(code, "proj4")] = pyproj.CRS.from_user_input(txt)
+    REF["pp"] = pps
+    REF["known_findings"] = load_known_findings()
+    REF["eq"] = {(a, b): bool(pa == pb) for a, pa in pps.items() for b, pb in pps.items()}
+    for ch in CHAINS:
+        if not pyproj_chain([[_material(x[0], x[1] or ("int" if x[0] in CODES else "user"))] for x in ch]):
+            raise HarnessError(f"C19 reference: pyproj's == is transitive on {ch} here; the chain no longer exercises anything")
+    for a in CODES + list(CUSTOM):  # what "lossless route" means: every material admitted for a definition is pyproj-equal to every other
+        mats = sorted({_material(a, r) for r in (CUSTOM_ROUTES_FOR.get(a, CUSTOM_ROUTES) if a in CUSTOM else ROUTES)})
+        bad = [(x, y) for x in mats for y in mats if not REF["eq"][(x, y)]]
+        if bad:
+            raise HarnessError(f"C19 reference: routes of {a} are not all equivalent for pyproj: {bad[:3]}")
     probes: Dict[Any, Tuple[float, float]] = {}
     for code in list(TRANSFORM_CODES) + CHURN_CODES + list(CUSTOM):
         p = specs[code]["pp"]
@@ -106,6 +137,44 @@ def parent_init(tier: str, opts: dict) -> None:
     REF["probe_xy"] = probes
     REF["tr"] = {}
     REF["same"] = {}
+
+
+def _material(code: Any, route: str) -> Tuple[Any, str]:
+    """(definition, material) - which text or object pyproj is finally handed on this route."""
+    if route == "proj4":
+        return (code, "proj4")
+    custom = code in CUSTOM
+    if route in ("wkt2019", "pyproj_wkt"):
+        return (code, "wkt2019")
+    if route == "wkt2018":
+        return (code, "wkt2018")
+    if route in ("json", "pyproj_json"):
+        return (code, "json")
+    if custom:
+        if route in ("user", "pyproj_user") or code in CUSTOM_ROUTES_FOR:
+            return (code, "user")
+        return (code, "wkt2019")  # copy / pickle of a value built from the WKT text
+    return (code, "epsg")
+
+
+def _collides(code: Any, route: str) -> bool:
+    """Routes whose construction-cache key is a pyproj object or the WKT2:2019 text: for one
+    definition they all land on one cache entry (the mechanism of known finding D19a), so the
+    pyproj object such a CRS ends up holding is the one built by whichever came first."""
+    if route in ("wkt2019", "json", "pyproj_epsg", "pyproj_wkt", "pyproj_json", "pyproj_user"):
+        return True
+    return code in CUSTOM and code not in CUSTOM_ROUTES_FOR and route in ("copy", "pickle")
+
+
+def pyproj_chain(cands3: List[List[Any]]) -> bool:
+    """cands3: for each of three values the materials its pyproj object may have been built from.
+    True when for some choice pyproj's own == is already not transitive on the reference objects
+    (some ordering x, y, z has x == y, y == z and x != z)."""
+    eq = REF["eq"]
+    for ks in itertools.product(*cands3):
+        if any(eq[(x, y)] and eq[(y, z)] and not eq[(x, z)] for x, y, z in itertools.permutations(ks, 3)):
+            return True
+    return False
 
 
 def worker_init(tier: str, opts: dict) -> None:
@@ -151,7 +220,8 @@ NEEDS_CRS = {"bbox", "geom", "geobox", "gcp", "gbtiles", "gridspec"}
 
 def _draw_crs_spec(rng: random.Random) -> List[Any]:
     if rng.random() < 0.12:
-        return ["crs", rng.choice(sorted(CUSTOM)), rng.choice(CUSTOM_ROUTES)]
+        name = rng.choice(sorted(CUSTOM))
+        return ["crs", name, rng.choice(CUSTOM_ROUTES_FOR.get(name, CUSTOM_ROUTES))]
     if rng.random() < 0.08:
         return ["crs", rng.choice(sorted(PROJ4)), "proj4"]
     code = rng.choice(CODES[:5] if rng.random() < 0.7 else CODES)
@@ -175,6 +245,29 @@ def generate(rng: random.Random, tier: str) -> dict:
     nsteps = rng.randint(3, 25 if tier == "thorough" else 18)
     style = rng.choice(["mixed", "mixed", "crs-heavy", "composite-heavy", "gadget", "gadget", "flood"])
     add_crs(_draw_crs_spec(rng))
+    if style != "flood" and rng.random() < 0.07:
+        # near-equivalent definitions: a triple on which pyproj's own == is not transitive, in any
+        # order and through any lossless route, optionally carried by the same composite value
+        steps.clear()
+        crs_slots.clear()
+        n_pool = 0
+        chain = [list(x) for x in rng.choice(CHAINS)]
+        if rng.random() < 0.5:
+            # the same definition once more through two routes that share a construction-cache entry
+            code = next(c for c, r in chain if r is None and c in CODES)
+            chain += [[code, rng.choice(["pyproj_epsg", "pyproj_json"])], [code, rng.choice(["wkt2019", "pyproj_wkt"])]]
+        rng.shuffle(chain)
+        for code, route in chain:
+            if route is None:
+                route = rng.choice(CUSTOM_ROUTES_FOR.get(code, CUSTOM_ROUTES) if code in CUSTOM else ROUTES)
+            add_crs(["crs", code, route])
+        if rng.random() < 0.5:
+            kind, var = rng.choice(sorted(NEEDS_CRS)), rng.randrange(17)
+            for ref in list(crs_slots):
+                steps.append(["comp", kind, var, ref])
+                val_slots.append(n_pool)
+                n_pool += 1
+        nsteps = max(nsteps, len(steps) + rng.randint(0, 5))
     if style == "flood":
         # bounded-cache gadget: transformer(a, b); drop a; flood the construction cache with n
         # never-seen specs (n straddles common cache bounds); then fresh CRSs ask for transformers
@@ -305,7 +398,7 @@ def build_crs(code: Any, route: str) -> Any:
         return CRS(pyproj.CRS.from_wkt(sp["wkt2019"]))
     if route == "pyproj_json":
         return CRS(pyproj.CRS.from_json_dict(copy.deepcopy(sp["json"])))
-    base = CRS(int(code)) if isinstance(code, int) else CRS(sp["wkt2019"])
+    base = CRS(int(code)) if isinstance(code, int) else CRS(CUSTOM[code] if code in CUSTOM_ROUTES_FOR else sp["wkt2019"])
     if route == "copy":
         return CRS(base)
     if route == "pickle":
@@ -518,10 +611,14 @@ class History:
         self.ch = Chooser(rng, record.get("schedule"), record.get("faults"), self.cfg.get("policy"))
         self.log = Digest()
         self.pool: Dict[int, Dict[str, Any]] = {}
+        self.built: Dict[Any, set] = {}  # definition -> materials handed to pyproj for it so far (the construction cache never forgets)
+        self.collided: set = set()  # definitions for which a route sharing the D19a cache entry has been taken
         self.next_slot = 0
         self.known: List[Violation] = []
         self.probes = {
             "race_both_threads_missed_cache": 0,
+            "pyproj_chain_triples": 0,
+            "collision_explained_equalities": 0,
             "race_lock_contended": 0,
             "id_reuse_observed": 0,
             "orphan_pyproj_object_died": 0,
@@ -544,19 +641,87 @@ class History:
         self._lock_contended_seen = 0
 
     # ---- reporting
-    def report(self, oracle: str, sig: str, detail: Dict[str, Any], strs: Optional[Tuple[str, str]] = None) -> None:
-        cause = None
-        if strs is not None and strs[0] != strs[1] and same_crs_spelling(strs[0], strs[1]):
+    def report(self, oracle: str, sig: str, detail: Dict[str, Any], strs: Optional[Tuple[str, str]] = None, cause: Optional[str] = None) -> None:
+        if cause is None and strs is not None and strs[0] != strs[1] and same_crs_spelling(strs[0], strs[1]):
             cause = "crs-spelling"
         detail = dict(detail)
         detail["cause"] = cause
         detail["step"] = self.steps_done
         v = Violation(PROP, oracle, sig, detail)
-        if cause == "crs-spelling":
+        if cause is not None:
             self.known.append(v)
             self.probes["known_class_violations"] += 1
             return
         raise _Stop(v)
+
+    def _crs_spec_of(self, e: Dict[str, Any]) -> Optional[List[Any]]:
+        """[code, route] of a CRS value, or of the CRS a composite value was given (through copies)."""
+
+        def unwrap(sp: Any) -> Any:
+            while isinstance(sp, list) and len(sp) == 2 and sp[0] in ("copy", "pickle") and isinstance(sp[1], list):
+                sp = sp[1]
+            return sp
+
+        sp = unwrap(e.get("spec"))
+        if e["kind"] != "crs":
+            sp = unwrap(sp[2]) if isinstance(sp, list) and len(sp) > 2 else None
+        return sp if isinstance(sp, list) and len(sp) == 2 and not isinstance(sp[0], list) else None
+
+    def materials(self, e: Dict[str, Any]) -> Optional[List[Any]]:
+        """Materials the pyproj object inside this value may have been built from: its own, and -
+        once a route that shares the construction-cache entry (see _collides) has been taken for the
+        same definition in this history - any material used for that definition so far."""
+        sp = self._crs_spec_of(e)
+        if sp is None:
+            return None
+        own = _material(sp[0], sp[1])
+        if own not in REF["pp"]:
+            return None
+        out = [own]
+        if sp[0] in self.collided:
+            out += [m for m in sorted(self.built.get(sp[0], ()), key=str) if m != own]
+        return out
+
+    def note_built(self, code: Any, route: str) -> None:
+        self.built.setdefault(code, set()).add(_material(code, route))
+        if _collides(code, route):
+            self.collided.add(code)
+
+    def expect_equal(self, e: Dict[str, Any], o: Dict[str, Any]) -> Tuple[Optional[bool], List[bool]]:
+        """(pyproj's answer for the two values' own materials, every answer reachable through the
+        shared cache entry).  (None, []) when there is no reference."""
+        ma, mb = self.materials(e), self.materials(o)
+        if ma is None or mb is None:
+            return None, []
+        eq = REF["eq"]
+        return eq[(ma[0], mb[0])], sorted({eq[(x, y)] for x in ma for y in mb})
+
+    def check_want(self, e: Dict[str, Any], o: Dict[str, Any], eq1: bool, pw: Dict[str, Any], strs: Tuple[str, str]) -> None:
+        """O19.7 for two CRS values built from EPSG codes / custom definitions through lossless routes."""
+        if e.get("code") is None or o.get("code") is None:
+            return
+        want, reachable = self.expect_equal(e, o)
+        if want is None or want == eq1:
+            return
+        sig = "crs-equivalent-specs-not-equal" if want else "crs-different-crs-compare-equal"
+        cause = None
+        if eq1 in reachable:
+            # the answer pyproj gives for the object another, earlier route left in the shared cache entry
+            cause = "crs-cache-key-collision"
+            self.probes["collision_explained_equalities"] += 1
+        self.report("O19.7", sig, pw, strs, cause=cause)
+
+    def chain_cause(self, *three: Dict[str, Any]) -> Optional[str]:
+        """'pyproj-eq-not-transitive' when the CRS definitions of the three values (their own, or
+        the one they hold) already form a non-transitive triple for pyproj's ==, applied to
+        reference objects built outside the library; anything else stays a plain violation."""
+        cands = [self.materials(e) for e in three]
+        if any(c is None for c in cands):
+            return None
+        if pyproj_chain(cands):  # type: ignore[arg-type]
+            self.probes["pyproj_chain_triples"] += 1
+            return "pyproj-eq-not-transitive"
+        return None
 
     # ---- pool
     def add(self, kind: str, value: Any, meta: Dict[str, Any]) -> int:
@@ -662,16 +827,12 @@ class History:
                 self.report("O19.2", f"{kind}-equal-but-hashes-differ", pw, strs)
             if not eq1 and tok == o["token"]:
                 self.report("O19.3", f"{kind}-unequal-but-same-token", pw, strs)
-            if kind == "crs" and e.get("code") is not None and o.get("code") is not None:
-                want = REF["class"].get(e["code"], e["code"]) == REF["class"].get(o["code"], o["code"])
-                if want and not eq1:
-                    self.report("O19.7", "crs-equivalent-specs-not-equal", pw, strs)
-                if not want and eq1:
-                    self.report("O19.7", "crs-different-crs-compare-equal", pw, strs)
+            if kind == "crs":
+                self.check_want(e, o, eq1, pw, strs)
         # transitivity: x == y and y == new  =>  x == new
         for x, y in itertools.combinations(same, 2):
             if (x["value"] == y["value"]) and ((y["value"] == v) != (x["value"] == v)):
-                self.report("O19.1", f"{kind}-eq-not-transitive", {"kind": kind, "a": x.get("spec"), "b": y.get("spec"), "c": e.get("spec")})
+                self.report("O19.1", f"{kind}-eq-not-transitive", {"kind": kind, "a": x.get("spec"), "b": y.get("spec"), "c": e.get("spec")}, cause=self.chain_cause(x, y, e))
 
     def cross_interpreter(self, e: Dict[str, Any], hash_first: bool) -> None:
         """Pickle a value here, unpickle it in an interpreter with another string-hash seed and
@@ -771,13 +932,10 @@ class History:
                 self.report("O19.1", "crs-eq-not-symmetric", pw, strs)
             if eq1 and e.get("hashable") and o.get("hashable") and hash(v) != hash(w):
                 self.report("O19.2", "crs-equal-but-hashes-differ", pw, strs)
-            if e.get("code") is not None and o.get("code") is not None:
-                want = REF["class"].get(e["code"], e["code"]) == REF["class"].get(o["code"], o["code"])
-                if want != eq1:
-                    self.report("O19.7", "crs-equivalent-specs-not-equal" if want else "crs-different-crs-compare-equal", pw, strs)
+            self.check_want(e, o, eq1, pw, strs)
         for x, y, z in itertools.permutations(crs, 3):
             if x["value"] == y["value"] and y["value"] == z["value"] and not x["value"] == z["value"]:
-                self.report("O19.1", "crs-eq-not-transitive", {"kind": "crs", "a": x.get("spec"), "b": y.get("spec"), "c": z.get("spec"), "after": "epsg-read"})
+                self.report("O19.1", "crs-eq-not-transitive", {"kind": "crs", "a": x.get("spec"), "b": y.get("spec"), "c": z.get("spec"), "after": "epsg-read"}, cause=self.chain_cause(x, y, z))
 
     # ---- transformer oracle O19.5
     def check_transform(self, a: Dict[str, Any], b: Dict[str, Any], xy: bool, quiet: bool = False) -> None:
@@ -825,6 +983,7 @@ class History:
             if op == "crs":
                 code, route = step[1], step[2]
                 v = build_crs(code, route)
+                self.note_built(code, route)
                 self.add("crs", v, {"code": None if route == "proj4" else code, "spec": [code, route], "via": "spec"})
             elif op == "comp":
                 kind, var, ref = step[1], step[2], step[3]
@@ -942,6 +1101,7 @@ class History:
         results: Dict[str, Any] = {}
         try:
             for i, (code, route) in enumerate(specs):
+                self.note_built(code, route)  # whichever thread wins, all of them have been built before the values are compared
                 kernel.spawn(f"R{i}", lambda i=i, code=code, route=route: work(f"R{i}", code, route))
             before = 0
             try:
@@ -1192,7 +1352,16 @@ def _history_child(record: dict, rng_state: Any):
             raise
         v = Violation(PROP, "O19.8", f"exception:{sig}", {"message": str(e)[:200], "step": h.steps_done, "cause": None})
     if v is None and h.known:
-        v = h.known[0]
+        # one outcome per run: a classified violation that no listed finding covers comes first, so
+        # that a listed one met earlier in the same history never hides it
+        # (and among listed ones the entry furthest down the file, the rarer classes, is the one shown)
+        listed = REF.get("known_findings", [])
+
+        def rank(k: Violation) -> int:
+            f = match_known(PROP, k.as_dict(), listed)
+            return len(listed) if f is None else listed.index(f)
+
+        v = max(h.known, key=rank)  # first of the highest rank
     h.probes["address_seam_calls"] = h.sim_ids.calls
     steps = record["workload"]["steps"]
     ncrs = sum(1 for s in steps if s[0] == "crs") + sum(len(s[1]) for s in steps if s[0] == "race")
